@@ -316,11 +316,13 @@ def run_repo(ctx, case):
             ctx.diff("repo_update", mm, obs)
         # direct oracle: what is checked out is the documented choice (remote first, then local, then tag)
         exp = None
+        applicable = True
         if case["remote"]:
             e, ok = oracle_best_match(remote_seen, case["v"])
+            applicable = ok  # a non-canonical numeral such as 7.01 among the branches is outside the property's scheme
             if ok and e is not None:
                 exp = {"r": ["branch", e]} if (e in remote_seen or e in local_seen) else {"err": "DataError"}
-        if exp is None:
+        if exp is None and applicable:
             e, ok = oracle_best_match(local_seen, case["v"])
             if ok and e is not None:
                 exp = {"r": ["branch", e]} if (e in local_seen or e in remote_seen) else {"err": "DataError"}
